@@ -103,17 +103,17 @@ theorem transforms_solve_mna (hE : IsExp E) (tcs : List (TCpt K)) (x : Ix → Si
     Solves .ivp s (tcs.map (atS E s)) (transformOf E x s) :=
   (C01.mna_iff_laws .ivp s _ _ hwf).mpr (laws_s_of_laws_t E hE tcs x hrest h s hs)
 
-/-- **response_unique_partial**: two time-domain solutions of one netlist (same sources, same initial state) have the same
-    transform at every point that is regular for both and at which the MNA system is non-singular — i.e. the time
-    response is THE inverse transform of the unique s-domain solution (C01 `laws_unique`).
-    PARTIAL: equality of the signals themselves (as normal forms) additionally needs injectivity of `L`, which is not
-    proved here (linear independence of the `1/(s−p)^k` and of the delay factors). -/
-theorem response_unique_partial (hE : IsExp E) (tcs : List (TCpt K)) (x y : Ix → Signal K)
+/-- **response_unique_at**: two time-domain solutions of one netlist (same sources, same initial state) have the same
+    transform at every point that is regular for both and at which the MNA system is non-singular on the unknowns `U`
+    (`C01.NonsingularOn`; for `U = C01.Unknown …` this is `C01.Nonsingular`) — i.e. the time
+    response is THE inverse transform of the unique s-domain solution.  Equality of the signals themselves (as normal
+    forms) follows by injectivity of `L`: `C02.response_unique` (Props/C02Inj.lean). -/
+theorem response_unique_at (hE : IsExp E) (U : Ix → Prop) (tcs : List (TCpt K)) (x y : Ix → Signal K)
     (hrx : RestWhereUnspecified tcs x) (hry : RestWhereUnspecified tcs y)
     (hx : LawsT E tcs x) (hy : LawsT E tcs y) (s : K) (hsx : Regular tcs x s) (hsy : Regular tcs y s)
-    (hwf : C01.WF (tcs.map (atS E s))) (hns : C01.Nonsingular .ivp s (tcs.map (atS E s))) :
-    ∀ i, i ≠ Ix.node 0 → L E (x i).post s = L E (y i).post s :=
-  C01.laws_unique .ivp s _ _ _ hwf hns (laws_s_of_laws_t E hE tcs x hrx hx s hsx) (laws_s_of_laws_t E hE tcs y hry hy s hsy)
+    (hwf : C01.WF (tcs.map (atS E s))) (hns : C01.NonsingularOn U .ivp s (tcs.map (atS E s))) :
+    ∀ i, U i → L E (x i).post s = L E (y i).post s :=
+  C01.laws_unique_on U .ivp s _ _ _ hwf hns (laws_s_of_laws_t E hE tcs x hrx hx s hsx) (laws_s_of_laws_t E hE tcs y hry hy s hsy)
 
 /-- **response_is_ilt**: the time response obtained by inverting (`ilt`, the mirror of
     `InverseLaplaceTransformer.ratfun`) partial-fraction data of an s-domain solution satisfies the time-domain laws.
@@ -139,6 +139,54 @@ theorem response_is_ilt (hE : IsExp E) (tcs : List (TCpt K)) (pre : Ix → List 
   exact hS s hs
 
 end transform
+
+/-! ### hand-over of the state at a switching instant -/
+
+section handover
+variable {K : Type} [Field K] [DecidableEq K]
+
+/-- **handover**: `convert_IVP` / `initialize` write into the post-switch netlist the capacitor voltages and inductor
+    currents (for couplings: the partner's current) of the pre-switch solution `X` — for a steady pre-switch circuit the
+    `Laws .dc` solution, whose constant continuation is a whole-axis solution of the pre-switch circuit
+    (`dc_is_steady_state`).  For signals whose pre-history ends in `X` this initial-value problem has EXACTLY the
+    solutions of the post-switch netlist with no initial condition written, i.e. of the circuit continued from its own
+    state at 0⁻: the initial conditions handed over are the values at t = 0⁻ of the pre-switch solution, nothing else.
+    (A hand-over of any other value, e.g. the solution at a later instant, breaks this: seeded change C02-3.) -/
+theorem handover (X : Ix → K) (cs : List (Cpt K × Signal K)) (x : Ix → Signal K) (h : StartsFrom X x) :
+    LawsTFormal (cs.map (fun c => (initializeFrom X c.1, c.2))) x ↔ LawsTFormal (cs.map (fun c => (clearIC c.1, c.2))) x := by
+  have hk : ∀ k, kclT x k (cs.map (fun c => (initializeFrom X c.1, c.2))) = kclT x k (cs.map (fun c => (clearIC c.1, c.2))) := by
+    intro k
+    simp only [kclT, List.flatMap_map]
+    congr 1
+    funext c
+    exact outflowT_handover h k c.1 c.2
+  constructor
+  · rintro ⟨h1, h2⟩
+    refine ⟨fun k hk0 => by rw [← hk]; exact h1 k hk0, ?_⟩
+    intro c hc p hp
+    obtain ⟨c0, hc0, rfl⟩ := List.mem_map.mp hc
+    rw [← lawsT_handover h] at hp
+    exact h2 _ (List.mem_map.mpr ⟨c0, hc0, rfl⟩) p hp
+  · rintro ⟨h1, h2⟩
+    refine ⟨fun k hk0 => by rw [hk]; exact h1 k hk0, ?_⟩
+    intro c hc p hp
+    obtain ⟨c0, hc0, rfl⟩ := List.mem_map.mp hc
+    rw [lawsT_handover h] at hp
+    exact h2 _ (List.mem_map.mpr ⟨c0, hc0, rfl⟩) p hp
+
+/-- … and the capacitor voltages / inductor currents written by the hand-over ARE the values at 0⁻ of the pre-switch
+    solution (by definition of `initializeFrom`; stated for the record and used by the harness oracle `state-handover`) -/
+theorem handover_state (X : Ix → K) (x : Ix → Signal K) (h : StartsFrom X x) (n1 n2 m : Nat) (c l : K) (v0 i0 : Option K)
+    (coup : List (Nat × K × Option K)) :
+    initializeFrom X (.Cap n1 n2 c v0) = .Cap n1 n2 c (some (vpre0 x n1 n2)) ∧
+    initializeFrom X (.Ind n1 n2 m l i0 coup)
+      = .Ind n1 n2 m l (some (pre0 (x (.br m)).pre)) (coup.map (fun p => (p.1, p.2.1, some (pre0 (x (.br p.1)).pre)))) := by
+  simp [initializeFrom, vpre0_of_startsFrom h, h _]
+
+/-- the constant continuation of `X` starts from `X` -/
+example (X : Ix → ℚ) : StartsFrom X (constSignals X) := fun ix => by simp [constSignals, pre0]
+
+end handover
 
 /-! ### the decision procedure of the driver -/
 
@@ -253,10 +301,11 @@ theorem ic_start_flux (x : Ix → Signal K) (n1 n2 m : Nat) (l : K) (i0 : Option
   rw [h1, h2, hv] at h0
   linear_combination -h0
 
-/-- **continuity_partial**: `ic_start` read for a whole-axis solution (no initial condition in the netlist): the
-    capacitor voltage is continuous across t = 0.  PARTIAL: the hypothesis is the formal law; from the transform-level
-    `LawsT` the same conclusion needs injectivity of `L` (stated as the hypothesis `hinj`). -/
-theorem continuity_partial (E : K → K) (x : Ix → Signal K) (n1 n2 : Nat) (c : K) (i : ExpPoly K) (hc : c ≠ 0)
+/-- **continuity_of_inj**: `ic_start` read for a whole-axis solution (no initial condition in the netlist): the
+    capacitor voltage is continuous across t = 0, from the transform-level law and injectivity of `L` on the residual
+    (`hinj`).  The injectivity is PROVED in Props/C02Inj.lean (`L_injective`, `L_injective_w`); the hypothesis-free
+    statement is `C02.continuity` there. -/
+theorem continuity_of_inj (E : K → K) (x : Ix → Signal K) (n1 n2 : Nat) (c : K) (i : ExpPoly K) (hc : c ≠ 0)
     (hinj : ∀ f : ExpPoly K, (∀ s, NonPole f s → L E f s = 0) → FormalZero f)
     (hlaw : ∀ s, NonPole (subP i (capCurrentT x n1 n2 c none)) s → L E (subP i (capCurrentT x n1 n2 c none)) s = 0)
     (hv : NoDelta (vpost x n1 n2)) (hi : impulse0 i = 0) :
